@@ -30,3 +30,4 @@ Definition r_spm_run :=
 Definition r_mp_step := mp_step mpool_tune_shift mpool_grow_mul mpool_ptr_size.
 Definition r_mp_run := mp_run mpool_tune_shift mpool_grow_mul mpool_ptr_size.
 Definition r_mp_atexit := mp_atexit mpool_ptr_size.
+Definition r_mp_exit := mp_exit mpool_ptr_size.
